@@ -1,6 +1,8 @@
 """C06 - cell polygons and dataset extent are faithful to the dataset's coordinates."""
 import re
 
+import numpy
+
 import shapely
 from shapely.geometry import box
 
@@ -172,6 +174,15 @@ def one_dataset(obs, rng, conv, kw, spec):
         obs.cls('extent:mesh-with-orphan-nodes')
     if orphan_outside:
         obs.cls('extent:orphan-node-outside-the-hull')
+    # the same goes for a cell that lacks only one of its two coordinates (no polygon): the coordinate it does have is
+    # still in the file, and may lie outside the box of the remaining polygons
+    if model.encoding.get('holes_missing_one_coordinate'):
+        lb, tb = numpy.asarray(model.lon_bounds, dtype=float), numpy.asarray(model.lat_bounds, dtype=float)
+        only_x = lb[numpy.isfinite(lb) & ~numpy.isfinite(tb)]
+        only_y = tb[numpy.isfinite(tb) & ~numpy.isfinite(lb)]
+        if bool(((only_x < want_bounds[0]) | (only_x > want_bounds[2])).any()) or bool(((only_y < want_bounds[1]) | (only_y > want_bounds[3])).any()):
+            invalid_on_hull = True
+            obs.cls('extent:half-missing-cell-on-hull-bounds-not-asserted')
     if not isinstance(bounds, Failed) and not invalid_on_hull:
         obs.expect(len(bounds) == 4 and all(abs(a - b) <= 1e-9 for a, b in zip(bounds, want_bounds)),
                    'bounds == bounding box of the cell polygons', lambda: {'got': bounds, 'want': want_bounds},
